@@ -751,4 +751,6 @@ V("c13-jwk-with-parameters-goes-lazy", "C13", "break", "R13.7", "a JWK given tog
   "        if isinstance(original_value, dict) and parameters is None:\n            if parameters is not None:\n                data = {**original_value, **parameters, \"kty\": self.key_type}\n            else:\n                data = {**original_value, \"kty\": self.key_type}")
 V("c19-dumps-non-ascii", "C19", "break", "R19.5", "json_b64encode emits raw non-ASCII and then encodes as ASCII",
   "util.py", "        text = json.dumps(text, ensure_ascii=True, separators=(\",\", \":\"))", "        text = json.dumps(text, ensure_ascii=False, separators=(\",\", \":\"))")
+V("c08-p2s-always-regenerated", "C08", "break", "R08.5", "the salt is generated even when the caller's header carries p2s",
+  "rfc7518/jwe_algs.py", "        if \"p2s\" not in headers:\n            p2s = secrets.token_bytes(16)", "        if \"p2sx\" not in headers:\n            p2s = secrets.token_bytes(16)")
 
